@@ -268,6 +268,45 @@ def _witness_seq(p):
     return ''.join(out)
 
 
+def _alternatives(p):
+    """the alternatives of a parsed loop body (looking through a single enclosing group)"""
+    items = list(p)
+    if len(items) == 1:
+        op, av = str(items[0][0]), items[0][1]
+        if op == 'SUBPATTERN':
+            return _alternatives(av[3])
+        if op == 'BRANCH':
+            return [list(b) for b in av[1]]
+    return [items]
+
+
+def _witness_min(p):
+    """like _witness_seq, with every optional part left out"""
+    out = []
+    for op, av in p:
+        ops = str(op)
+        if ops in ('MAX_REPEAT', 'MIN_REPEAT', 'POSSESSIVE_REPEAT'):
+            out.append(_witness_min(av[2]) * min(av[0], 3))
+        elif ops == 'SUBPATTERN':
+            out.append(_witness_min(av[3]))
+        elif ops == 'BRANCH':
+            out.append(_witness_min(av[1][0]))
+        else:
+            out.append(_witness_seq([(op, av)]))
+    return ''.join(out)
+
+
+def body_witnesses(body):
+    """strings one iteration of the loop can match: per alternative of the body the witness with and without its
+    optional parts (for (?:\\s|/\\*[\\s\\S]*?\\*/)+ these are ' ', '/*a*/', '/**/')"""
+    out = []
+    for alt in _alternatives(body):
+        for w in (_witness_seq(alt), _witness_min(alt)):
+            if w and w not in out:
+                out.append(w)
+    return out
+
+
 def loop_sites(rx):
     """-> [(prefix, body)] for every repetition of the rule that may run at least twice: prefix is a string that
     carries a match attempt to the loop, body the parsed loop body"""
@@ -313,8 +352,17 @@ def directed(rules, tier='quick'):
             if not al:
                 continue
             non = next(c for c in ['\x01', '~', 'é', '\x02'] if c not in al)
-            for k in range(1, maxlen + 1):
-                syms = al if k <= 2 else al[:6 if tier == 'quick' else 8]
+            # whole iterations of the loop as pumps (any length): nested repetitions are ambiguous about where one
+            # iteration ends, which only shows when the pump is a complete iteration
+            for pump in body_witnesses(body):
+                if len(pump) > 1:
+                    for suf in ('', non):
+                        key = (prefix, pump, suf)
+                        if key not in seen:
+                            seen.add(key)
+                            yield {'rule': ri, 'prefix': prefix, 'pump': pump, 'reps': max(30, 60 // len(pump)), 'suffix': suf}
+            for k in range(1, maxlen + 1 + (len(al) <= 4)):
+                syms = al if k <= 2 or len(al) <= 4 else al[:6 if tier == 'quick' else 8]
                 for p in itertools.product(syms, repeat=k):
                     pump = ''.join(p)
                     for suf in ('', non):
